@@ -2170,8 +2170,14 @@ def lex_tokens(line):
         tokens = ['string', value]
         return LineTokens(line, tokens)
 
+    # a single-character literal may hold a character that is special to the
+    # lexer (comma, space, parens, hash): swap it for its character code first
+    contents = line.contents
+    if "'" in contents:
+        contents = re.sub(r"'([^\\])'", lambda m: str(ord(m.group(1))), contents)
+
     # strip comments
-    contents = re.sub(r'#.*$', r'', line.contents)
+    contents = re.sub(r'#.*$', r'', contents)
 
     # pad parens before split
     contents = contents.replace('(', ' ( ').replace(')', ' ) ')
